@@ -100,7 +100,9 @@ def cases(draw: T.Any) -> dict:
         'headers': draw(st.lists(st.tuples(st.sampled_from(['h1.h', 'h2.h']), st.sampled_from([None, 'inc', 'a/b', '@cust/hdr', '@share/h x'])), max_size=2, unique_by=lambda x: x[0])),
         # 'name@locale' = install_man(name, locale: locale): the only install rule that renames the file (name.<locale>.N -> name.N)
         'man': draw(st.lists(st.sampled_from(['foo.1', 'bar.3', 'baz.fr.1@fr', 'tool.conf.de.5@de']), max_size=3, unique=True)),
-        'subdir': draw(st.sampled_from([None, ('tree', 'share/t', None, False), ('tree', 'share/t', 'devel', True)])),
+        # ('tree/': the same directory spelled with a trailing slash - still installed as <install_dir>/tree)
+        'subdir': draw(st.sampled_from([None, ('tree', 'share/t', None, False), ('tree', 'share/t', 'devel', True),
+                                        ('tree/', 'share/t2', None, False), ('tree/', 'share/t3', 'devel', True)])),
     }
     # an extra executable / static library / custom target placed with build_subdir: (since 1.10: "places the build results
     # in a subdirectory of the given name"), the value the intro filename must follow
@@ -174,9 +176,9 @@ def extras(c: dict, logdir: str) -> T.Tuple[T.List[str], T.Dict[str, str]]:
         lines.append(f"install_man({q(fn)}" + (f", locale: {q(loc)}" if loc else '') + ')')
     if ins['subdir']:
         sd, dest, tag, excl = ins['subdir']
-        files[f'{sd}/f1.txt'] = 'f1\n'
-        files[f'{sd}/sub/f2.txt'] = 'f2\n'
-        files[f'{sd}/skip.me'] = 'x\n'
+        files[f'{sd.rstrip("/")}/f1.txt'] = 'f1\n'
+        files[f'{sd.rstrip("/")}/sub/f2.txt'] = 'f2\n'
+        files[f'{sd.rstrip("/")}/skip.me'] = 'x\n'
         kw = f"install_dir: {q(dest)}" + (f", install_tag: {q(tag)}" if tag else '') + (", exclude_files: ['skip.me']" if excl else '')
         lines.append(f"install_subdir({q(sd)}, {kw})")
     return lines, files
@@ -490,6 +492,21 @@ def check_case(c: dict, workdir: str, ev: T.Optional[Evidence], sub: bool = Fals
             if files_got != want:
                 return Failure('install_plan/tag-set-differs', c,
                                f'`meson install --tags {tag}` created {sorted(files_got)} but intro-install_plan.json assigns tag {tag!r} to {sorted(want)}')
+        # an installed subdirectory: the destination the plan names is where the CONTENT of the source directory lands
+        if plan.get('install_subdirs'):
+            shutil.rmtree(dest, ignore_errors=True)
+            ir = run_sub(['install', '--no-rebuild', '-C', bld, '--destdir', dest], timeout=120)
+            if ir.rc != 0:
+                return Failure('install/fails', c, f'meson install failed (exit {ir.rc}):\n{ir.text[-1200:]}')
+            for srcp, ent in plan['install_subdirs'].items():
+                d = expand(ent['destination'])
+                if '{' in d or not os.path.isdir(srcp):
+                    continue
+                lost = [n for n in sorted(os.listdir(srcp)) if n != 'skip.me' and not os.path.lexists(dest + d + '/' + n)]
+                if lost:
+                    return Failure('install_plan/subdir-destination-differs', c,
+                                   f'intro-install_plan.json gives the directory {srcp!r} the destination {ent["destination"]!r} ({d}), but after '
+                                   f'`meson install` its entries {lost} are not there; installed tree: {sorted(tree(dest))[:12]}')
         # ---- the same relations after a second configuration of the same directory -------------------------
         # (the intro files describe the build "that was actually generated" - also when it was generated by a reconfigure:
         # every build-definition file is read again then, and has to be listed again)
